@@ -355,7 +355,9 @@ func (g *c14gen) ip(allowBad bool) net.IP {
 		return net.IP(append([]byte{0, 0, 0, 0, 0, 0, 0, 0, 0, 0, 0xff, 0xff}, g.bytesN(4)...))
 	case k == 1:
 		return net.IP(make([]byte, 16))
-	case k == 2 && allowBad:
+	case k == 2 || k == 4:
+		// Go's 4-byte form of an IPv4 address (net.IP.To4 / net.ParseIP(...).To4()): a legitimate in-memory form,
+		// written to the wire as the 16-byte IPv4-mapped address
 		return net.IP(g.bytesN(4))
 	case k == 3 && allowBad:
 		if g.r.Intn(2) == 0 {
